@@ -71,6 +71,23 @@ theorem Runs.setIdx_err {ext : Ext} {env : Env} {x : String} {i e : Expr} {err :
     Runs ext (.setIdx x i e) env (.exc err env) :=
   runs_intro 0 fun k _ => by simp [exec, h]
 
+theorem Runs.setDefaultIdx {ext : Ext} {env : Env} {x : String} {k k2 e : Expr} {nm : Val}
+    (h : (evalExpr ext env e >>= fun v => lookup env x >>= fun m => evalExpr ext env k >>= fun kv => evalExpr ext env k2 >>= fun kv2 =>
+            setDefaultAt m kv kv2 v) = .ok nm) :
+    Runs ext (.setDefaultIdx x k k2 e) env (.norm (setVar env x nm)) :=
+  runs_intro 0 fun k _ => by simp [exec, h]
+
+theorem Runs.setDefaultIdx_err {ext : Ext} {env : Env} {x : String} {k k2 e : Expr} {err : PyErr}
+    (h : (evalExpr ext env e >>= fun v => lookup env x >>= fun m => evalExpr ext env k >>= fun kv => evalExpr ext env k2 >>= fun kv2 =>
+            setDefaultAt m kv kv2 v) = .error err) :
+    Runs ext (.setDefaultIdx x k k2 e) env (.exc err env) :=
+  runs_intro 0 fun k _ => by simp [exec, h]
+
+theorem Runs.warn_err {ext : Ext} {env : Env} {e : Expr} {err : PyErr}
+    (h : (lookup env "$log" >>= fun l => evalExpr ext env e >>= fun v => appendVal l v) = .error err) :
+    Runs ext (.warn e) env (.exc err env) :=
+  runs_intro 0 fun k _ => by simp [exec, h]
+
 theorem Runs.warn {ext : Ext} {env : Env} {e : Expr} {nl : Val}
     (h : (lookup env "$log" >>= fun l => evalExpr ext env e >>= fun v => appendVal l v) = .ok nl) :
     Runs ext (.warn e) env (.norm (setVar env "$log" nl)) :=
@@ -471,5 +488,160 @@ theorem Returns.seq_falls {ext : Ext} {a rest : Stmt} {env : Env} {r : M Env} {f
     obtain ⟨e'', h1⟩ := h1
     exact ⟨e'', Runs.seq_stop h1 (by intro e; simp)⟩
   | ok env' => exact Returns.seq_norm h1 (h2 env' rfl)
+
+theorem Falls.unpack2 {ext : Ext} {env : Env} {x y : String} {e : Expr} (r : M Val) (he : evalExpr ext env e = r) :
+    Falls ext (.unpack [x, y] e) env (r >>= fun v => PyImp.unpack2 v >>= fun p => .ok (setVar (setVar env x p.1) y p.2)) := by
+  cases r with
+  | error err => exact ⟨env, Runs.unpack_err he⟩
+  | ok v =>
+    cases hs : seqOf v with
+    | none =>
+      have hu : PyImp.unpack2 v = .error (.internal "unsupported: unpacking a non-sequence") := by simp [PyImp.unpack2, hs]
+      simp only [bind, Except.bind, hu]
+      exact ⟨env, runs_intro 0 fun k _ => by simp [exec, he, hs]⟩
+    | some l =>
+      match l, hs with
+      | [a, b], hs =>
+        have hu : PyImp.unpack2 v = .ok (a, b) := by simp [PyImp.unpack2, hs]
+        simp only [bind, Except.bind, hu]
+        exact Runs.unpack he hs (by simp [bindAll])
+      | [], hs =>
+        have hu : PyImp.unpack2 v = .error .valueError := by simp [PyImp.unpack2, hs]
+        simp only [bind, Except.bind, hu]
+        exact ⟨env, runs_intro 0 fun k _ => by simp [exec, he, hs, bindAll]⟩
+      | [_], hs =>
+        have hu : PyImp.unpack2 v = .error .valueError := by simp [PyImp.unpack2, hs]
+        simp only [bind, Except.bind, hu]
+        exact ⟨env, runs_intro 0 fun k _ => by simp [exec, he, hs, bindAll]⟩
+      | _ :: _ :: _ :: _, hs =>
+        have hu : PyImp.unpack2 v = .error .valueError := by simp [PyImp.unpack2, hs]
+        simp only [bind, Except.bind, hu]
+        exact ⟨env, runs_intro 0 fun k _ => by simp [exec, he, hs, bindAll]⟩
+
+theorem Falls.setDefaultIdx {ext : Ext} {env : Env} {x : String} {k k2 e : Expr} (r : M Val)
+    (h : (evalExpr ext env e >>= fun v => lookup env x >>= fun m => evalExpr ext env k >>= fun kv => evalExpr ext env k2 >>= fun kv2 =>
+            setDefaultAt m kv kv2 v) = r) :
+    Falls ext (.setDefaultIdx x k k2 e) env (r.map fun nm => setVar env x nm) := by
+  cases r with
+  | error err => exact ⟨env, Runs.setDefaultIdx_err h⟩
+  | ok nm => exact Runs.setDefaultIdx h
+
+theorem Falls.warn {ext : Ext} {env : Env} {e : Expr} (r : M Val)
+    (h : (lookup env "$log" >>= fun l => evalExpr ext env e >>= fun v => appendVal l v) = r) :
+    Falls ext (.warn e) env (r.map fun nl => setVar env "$log" nl) := by
+  cases r with
+  | error err => exact ⟨env, Runs.warn_err h⟩
+  | ok nl => exact Runs.warn h
+
+/-! ### one turn of a loop body: it ends normally or with `continue` (either way the loop goes on from this environment), or raises -/
+
+def Turns (ext : Ext) (s : Stmt) (env : Env) (r : M Env) : Prop :=
+  match r with
+  | .ok env' => Runs ext s env (.norm env') ∨ Runs ext s env (.cont env')
+  | .error e => ∃ env'', Runs ext s env (.exc e env'')
+
+theorem Falls.turns {ext : Ext} {s : Stmt} {env : Env} {r : M Env} (h : Falls ext s env r) : Turns ext s env r := by
+  cases r with
+  | error e => exact h
+  | ok env' => exact Or.inl h
+
+theorem Turns.seq {ext : Ext} {a b : Stmt} {env : Env} {r : M Env} {g : Env → M Env} (h1 : Falls ext a env r)
+    (h2 : ∀ env', r = .ok env' → Turns ext b env' (g env')) : Turns ext (.seq a b) env (r >>= g) := by
+  cases r with
+  | error err =>
+    obtain ⟨e'', h1⟩ := h1
+    exact ⟨e'', Runs.seq_stop h1 (by intro e; simp)⟩
+  | ok env' =>
+    have := h2 env' rfl
+    simp only [bind, Except.bind]
+    cases hg : g env' with
+    | error err =>
+      rw [hg] at this
+      obtain ⟨e'', this⟩ := this
+      exact ⟨e'', Runs.seq h1 this⟩
+    | ok env2 =>
+      rw [hg] at this
+      rcases this with this | this
+      · exact Or.inl (Runs.seq h1 this)
+      · exact Or.inr (Runs.seq h1 this)
+
+theorem Turns.ite {ext : Ext} {env : Env} {c : Expr} {a b : Stmt} {ra rb : M Env} (r : M Bool) (hc : evalExpr ext env c >>= truth = r)
+    (ha : r = .ok true → Turns ext a env ra) (hb : r = .ok false → Turns ext b env rb) :
+    Turns ext (.ite c a b) env (r >>= fun t => if t then ra else rb) := by
+  cases r with
+  | error err => exact ⟨env, Runs.ite_err hc⟩
+  | ok t =>
+    cases t with
+    | true =>
+      have := ha rfl
+      simp only [bind, Except.bind, if_true]
+      cases ra with
+      | error e => obtain ⟨e'', this⟩ := this; exact ⟨e'', Runs.ite_true hc this⟩
+      | ok env' =>
+        rcases this with this | this
+        · exact Or.inl (Runs.ite_true hc this)
+        · exact Or.inr (Runs.ite_true hc this)
+    | false =>
+      have := hb rfl
+      simp only [bind, Except.bind, Bool.false_eq_true, if_false]
+      cases rb with
+      | error e => obtain ⟨e'', this⟩ := this; exact ⟨e'', Runs.ite_false hc this⟩
+      | ok env' =>
+        rcases this with this | this
+        · exact Or.inl (Runs.ite_false hc this)
+        · exact Or.inr (Runs.ite_false hc this)
+
+/-- `if c: continue` followed by the rest of the body -/
+theorem Turns.continue_if {ext : Ext} {env : Env} {c : Expr} {rest : Stmt} {rr : M Env} (r : M Bool) (hc : evalExpr ext env c >>= truth = r)
+    (h2 : r = .ok false → Turns ext rest env rr) :
+    Turns ext (.seq (.ite c .cont .skip) rest) env (r >>= fun t => if t then .ok env else rr) := by
+  cases r with
+  | error err => exact ⟨env, Runs.seq_stop (Runs.ite_err hc) (by intro e; simp)⟩
+  | ok t =>
+    cases t with
+    | true => exact Or.inr (Runs.seq_stop (Runs.ite_true hc (Runs.cont _ _)) (by intro e; simp))
+    | false =>
+      have := h2 rfl
+      simp only [bind, Except.bind, Bool.false_eq_true, if_false]
+      have hs : Runs ext (.ite c .cont .skip) env (.norm env) := Runs.ite_false hc (Runs.skip _ _)
+      cases rr with
+      | error e => obtain ⟨e'', this⟩ := this; exact ⟨e'', Runs.seq hs this⟩
+      | ok env' =>
+        rcases this with this | this
+        · exact Or.inl (Runs.seq hs this)
+        · exact Or.inr (Runs.seq hs this)
+
+/-- the environments a `for` loop passes through: the body's turns folded over the items -/
+def foldTurns (v : String) (step : Env → Val → M Env) : Env → List Val → M Env
+  | env, [] => .ok env
+  | env, x :: xs => step env x >>= fun env' => foldTurns v step env' xs
+
+theorem Falls.forVals {ext : Ext} {v : String} {b : Stmt} (step : Env → Val → M Env)
+    (hstep : ∀ env x, Turns ext b (setVar env v x) (step env x)) :
+    ∀ (xs : List Val) (env : Env), Falls ext (.forVals v (Val.ofList xs) b .skip) env (foldTurns v step env xs) := by
+  intro xs
+  induction xs with
+  | nil => intro env; exact Runs.forVals_nil (Runs.skip _ _)
+  | cons x xs ih =>
+    intro env
+    have h1 := hstep env x
+    simp only [foldTurns, Val.ofList]
+    cases hs : step env x with
+    | error e =>
+      rw [hs] at h1
+      obtain ⟨e'', h1⟩ := h1
+      exact ⟨e'', Runs.forVals_exit h1 (Or.inr ⟨_, _, rfl⟩)⟩
+    | ok env' =>
+      rw [hs] at h1
+      have h2 := ih env'
+      simp only [bind, Except.bind]
+      cases hf : foldTurns v step env' xs with
+      | error e =>
+        rw [hf] at h2
+        obtain ⟨e'', h2⟩ := h2
+        exact ⟨e'', Runs.forVals_step (h1.elim Or.inl Or.inr) h2⟩
+      | ok env2 =>
+        rw [hf] at h2
+        exact Runs.forVals_step (h1.elim Or.inl Or.inr) h2
 
 end Chartparse.PyImp
